@@ -308,6 +308,9 @@ def run(R):
     for g in graph_fails[:2]:
         R.violation("illicit clone node in a borrow-checked call graph: " + g["why"], g)
     real_fail = fails or clone_bad or graph_fails
+    if R.tier == "thorough" and not R.replay and lean_ok and not pxvlib.leanchecker(R, ["Pxv.Thm.C04"]):
+        lean_ok = False
+        lrep["errors"] = ["leanchecker rejects Pxv.Thm.C04"]
     broken = []
     if not lean_ok:
         broken.append("proof obligations of Pxv.Thm.C04 no longer check: %s" % (lrep.get("errors") or lrep.get("bad_axioms") or lrep.get("forbidden_tokens")))
